@@ -93,7 +93,15 @@ def gen_api(rng, size="normal", c18=False):
         cfg["default_context"] = rng.choice(["Arc", "Arc", ""])
     if rng.chance(1, 3):
         cfg["function_prefix"] = "pfx"
-    return {"traits": traits, "objects": objects, "groups": groups, "config": cfg}
+    shape = {}
+    if rng.chance(1, 4):
+        shape["guard"] = True
+    if rng.chance(1, 6):
+        shape["cpp_compat"] = False
+    api = {"traits": traits, "objects": objects, "groups": groups, "config": cfg}
+    if shape:
+        api["shape"] = shape
+    return api
 
 
 def api_line(api, modes="0 0", mid=17):
@@ -462,6 +470,10 @@ def _candidates(api):
     for k in list(api.get("config", {}).keys()):
         a = copy.deepcopy(api)
         del a["config"][k]
+        yield a
+    for k in list(api.get("shape", {}).keys()):
+        a = copy.deepcopy(api)
+        del a["shape"][k]
         yield a
     if api.get("generic_ctx"):
         a = copy.deepcopy(api)
